@@ -18,6 +18,8 @@ column), states ordered transitional / transitional-accepting / final, state 0 =
 as doc/GTF.adoc requires.  Mixed pre-contexts are supported: shorter patterns are padded with ANY and get their own
 start states.
 """
+import random
+
 from .sfnt import (be16, be32, u8, build_sfnt, cmap as build_cmap, feat_table, glat_gloc, glyf_loca, head, hhea, hmtx,
                    maxp, name_table, sill_table)
 
@@ -337,7 +339,8 @@ def build_tables(spec):
                            spec.get('gloc_attrids', False), spec.get('octaboxes'))
     t = {'head': head(upem, loca_long), 'hhea': hhea(len(gl)), 'maxp': maxp(len(gl)), 'hmtx': hmtx([g['adv'] for g in gl]),
          'glyf': glyf, 'loca': loca,
-         'cmap': build_cmap({int(k): v for k, v in spec['cmap'].items()}, spec.get('cmap12')),
+         'cmap': build_cmap({int(k): v for k, v in spec['cmap'].items()}, spec.get('cmap12'),
+                            random.Random(spec['cmap_ro_seed']) if spec.get('cmap_ro_seed') is not None else None),
          'Glat': glat, 'Gloc': gloc, 'Silf': silf(spec)}
     if spec.get('no_glyf'):
         del t['glyf'], t['loca']
